@@ -113,6 +113,7 @@ func runC01(opt *Options) int {
 			{Name: "K8.setup", Pkg: "generator", Harness: "VerifHarness_C17_Setup", Unwind: 16},
 			// helper names are unique per output package: one namer per output package, whatever the declaring package
 			func() layera.Kernel { k := kernelFileManager(); k.E2E = "c01"; return k }(),
+			{Name: "K8.declarednames", Pkg: "generator", Harness: "VerifHarness_C01_DeclaredNames", Unwind: 24, RecordJen: true, E2E: "c01", Stub: []string{"github.com/jmattheis/goverter/generator.generateConverter"}},
 			// loop index / map / helper names never repeat within a method (declared twice, shadowed)
 			{Name: "K9.namerloops", Pkg: "namer", Harness: "VerifHarness_C13_NamerLoops", Unwind: 200, LoopsBounded: true},
 		},
